@@ -18,6 +18,8 @@ type MTPlan struct {
 	Submitters int     `json:"submitters"`
 	Subs       []MTSub `json:"subs"`
 	QCap       int     `json:"qcap,omitempty"` // capacity of the clearance queues (0: as shipped, GOMAXPROCS*100)
+	EarlyStop  bool    `json:"early_stop,omitempty"`  // Shutdown is called while microtasks are still running
+	StopSubmit bool    `json:"stop_submit,omitempty"` // the module's stop routine runs a microtask itself
 }
 
 // MTSub is one microtask submission.
@@ -44,6 +46,8 @@ func genMT(rng *rand.Rand, tier string) *MTPlan {
 	if rng.IntN(2) == 0 {
 		p.QCap = 1 + rng.IntN(3)
 	}
+	p.EarlyStop = rng.IntN(5) == 0
+	p.StopSubmit = rng.IntN(4) == 0
 	var kinds []string
 	for _, k := range mtKinds {
 		if rng.IntN(3) != 0 {
@@ -88,6 +92,16 @@ type mtState struct {
 	negSeen string
 	probeDelay time.Duration
 	probeRan   bool
+	subT        []time.Duration // when each submission was made
+	startT      []time.Duration // when its function began
+	stopRan     int             // executions of the microtask the stop routine runs
+	stopRet     error
+	stopRetSet  bool
+	lastEndT    time.Duration // when the last microtask function returned
+	shutdownBegun bool
+	anyExpired    bool // some microtask's maximum delay has run out in this run
+	earlyStopDone bool
+	earlyStopHeld time.Duration // time between the return of the last microtask function and the return of Shutdown
 	earlyStarted, earlyRan bool
 	earlyDelay             time.Duration
 	offDelay   time.Duration
@@ -117,7 +131,19 @@ func execMT(p *MTPlan, rc *simkit.RunCtx) {
 		modules.VerifSimSetClearanceQueue(p.QCap)
 		rc.Probe("small-clearance-queue")
 	}
-	s.m = modules.Register("m00", nil, func() error { return nil }, func() error { return nil })
+	s.subT = make([]time.Duration, len(p.Subs))
+	s.startT = make([]time.Duration, len(p.Subs))
+	s.m = modules.Register("m00", nil, func() error { return nil }, func() error {
+		if p.StopSubmit {
+			// a microtask run from the stop routine: executed once (with a cancelled context), its error handed back
+			s.stopRet = s.m.RunMicroTask("from-stop", time.Hour, func(ctx context.Context) error {
+				s.stopRan++
+				return fmt.Errorf("error from the stop routine's microtask")
+			})
+			s.stopRetSet = true
+		}
+		return nil
+	})
 	if err := modules.Start(); err != nil {
 		rc.Fail("C15.harness", "Start failed", err.Error())
 		return
@@ -137,6 +163,7 @@ func execMT(p *MTPlan, rc *simkit.RunCtx) {
 		return func(ctx context.Context) error {
 			sub := p.Subs[k]
 			s.execs[k]++
+			s.startT[k] = simrt.Now()
 			high := prioOf(sub.Kind) == "igh"
 			if high {
 				s.runHigh++
@@ -145,9 +172,53 @@ func execMT(p *MTPlan, rc *simkit.RunCtx) {
 				if s.runML > s.maxML {
 					s.maxML = s.runML
 				}
-				if !p.Tight && s.runHigh == 0 && s.runML > p.Limit {
+				if !p.Tight && s.runHigh == 0 && s.runML > p.Limit && !s.shutdownBegun {
 					rc.Fail("C15.limit-exceeded", "more medium/low-priority microtasks executing than the configured limit (no high-priority running, no delay expired)",
 						fmt.Sprintf("%d executing, limit %d", s.runML, p.Limit))
+				}
+				if p.Tight {
+					// a microtask whose maximum delay (documented default: 1 s medium, 3 s low; signal variants are
+					// given 1 s here) has run out when it starts: from now on the bound is off
+					nd := time.Second
+					if prioOf(sub.Kind) == "low" && sub.Kind[:3] != "sig" {
+						nd = 3 * time.Second
+					}
+					if simrt.Now()-s.subT[k] >= nd-50*time.Millisecond {
+						s.anyExpired = true
+					}
+				}
+				if p.Tight && s.runHigh == 0 && s.runML > p.Limit && sub.Kind[:3] != "sig" && !s.shutdownBegun {
+					// default delays (documented: 1 second for medium, 3 seconds for low priority): starting on top of a full
+					// limit is in order only once this microtask's own delay has run out
+					needOf := func(kind string) time.Duration {
+						if prioOf(kind) == "low" && kind[:3] != "sig" {
+							return 3 * time.Second
+						}
+						return time.Second // medium priority; the signal variants are given one second by this harness
+					}
+					// the bound holds "as long as no maximum delay has expired": of no microtask that is waiting or has
+					// just started
+					expired := false
+					for j, o := range p.Subs {
+						if prioOf(o.Kind) == "igh" || s.subT[j] == 0 && j != 0 {
+							continue
+						}
+						if s.execs[j] == 0 || j == k || simrt.Now()-s.startT[j] < 50*time.Millisecond {
+							if simrt.Now()-s.subT[j] >= needOf(o.Kind)-50*time.Millisecond {
+								expired = true
+							}
+						}
+					}
+					// (and it stays off afterwards: a microtask that started without clearance is counted by the scheduler
+					// only when its stale request comes up, so the admission count runs low for a while)
+					if expired {
+						s.anyExpired = true
+					}
+					need := needOf(sub.Kind)
+					if waited := simrt.Now() - s.subT[k]; !s.anyExpired && waited < need-50*time.Millisecond {
+						rc.Fail("C15.limit-exceeded", "a microtask was started on top of a full limit before its (default) maximum delay had expired",
+							fmt.Sprintf("%s waited %v of %v; %d executing, limit %d", sub.Kind, waited, need, s.runML, p.Limit))
+					}
 				}
 			}
 			if d := mtDur[sub.Dur]; d > 0 {
@@ -159,6 +230,7 @@ func execMT(p *MTPlan, rc *simkit.RunCtx) {
 				s.runML--
 			}
 			s.ended[k]++
+			s.lastEndT = simrt.Now()
 			if !s.earlyStarted {
 				all := true
 				for _, e := range s.ended {
@@ -204,6 +276,7 @@ func execMT(p *MTPlan, rc *simkit.RunCtx) {
 				}
 				name := fmt.Sprintf("mt%d", k)
 				fn := body(k)
+				s.subT[k] = simrt.Now()
 				switch sub.Kind {
 				case "starthigh":
 					s.m.StartHighPriorityMicroTask(name, fn)
@@ -256,6 +329,25 @@ func execMT(p *MTPlan, rc *simkit.RunCtx) {
 	for c := 0; c < p.Submitters; c++ {
 		<-done
 	}
+	if p.EarlyStop {
+		// stop while microtasks are still running (those that take a while): the stop ends right after the last one
+		running := 0
+		for k := range p.Subs {
+			if s.execs[k] > s.ended[k] {
+				running++
+			}
+		}
+		if running > 0 {
+			t1 := simrt.Now()
+			s.shutdownBegun = true // the limit is promised only "before shutdown begins"
+			_ = modules.Shutdown()
+			s.offDelay = simrt.Now() - t1
+			s.earlyStopHeld = simrt.Now() - s.lastEndT
+			s.earlyStopDone = true
+			simrt.AwaitQuiescence(5 * time.Minute)
+			return
+		}
+	}
 	simrt.AwaitQuiescence(5 * time.Minute)
 	// clause 4: everything finished -> counters zero, next microtask admitted at once, stop not held up
 	s.finalGlobal = modules.VerifSimMicroTasks()
@@ -286,6 +378,27 @@ func checkMT(p *MTPlan, rc *simkit.RunCtx) {
 	}
 	if rc.Stats.StepCap {
 		rc.Inconcl = "step-cap"
+		return
+	}
+	if p.StopSubmit && s.stopRetSet {
+		// the microtask the stop routine ran: executed exactly once, its error handed back
+		if s.stopRan != 1 {
+			rc.Fail("C15.exactly-once", "a microtask run by the module's stop routine was not executed exactly once", fmt.Sprintf("%d executions", s.stopRan))
+			return
+		}
+		if s.stopRet == nil || s.stopRet.Error() != "error from the stop routine's microtask" {
+			rc.Fail("C15.run-result", "blocking variant did not return the function's error (microtask run by the stop routine)", fmt.Sprint(s.stopRet))
+			return
+		}
+		rc.Probe("microtask-from-stop-routine")
+	}
+	if s.earlyStopDone {
+		// stopped while microtasks were running: the stop is over right after the last of them returned
+		if s.earlyStopHeld >= 0 && s.earlyStopHeld > 10*time.Second && s.lastEndT > 0 {
+			rc.Fail("C15.stop-held-up", "module stop was held up after the last running microtask had finished", fmt.Sprintf("Shutdown returned %v after the last microtask function did", s.earlyStopHeld))
+			return
+		}
+		rc.Probe("stopped-while-microtasks-ran")
 		return
 	}
 	if s.maxML >= p.Limit {
